@@ -70,10 +70,32 @@ func init() {
 		Assumptions: []string{"reference evaluator mc/ref encodes README/NOTE + property statement; NaN ordering, reading a child block as a field, repetition beyond 2^20 bytes are excluded",
 			"operand values are limited to the alphabet (20 spellings); ints are 64-bit"},
 		Run: func(c *fw.Ctx) {
-			do := func(src, shard string) bool {
+			enumC01(c, func(src, shard string) bool {
 				c.Do(subC01, &progCase{Src: src, Shard: shard})
 				return !c.Expired()
-			}
+			})
+		},
+		Finish: c01Finish,
+	})
+}
+
+func c01Finish(m *fw.Merged) []string {
+	var v []string
+	for _, o := range []string{"accepted-ok", "accepted-rterr:types", "accepted-rterr:divzero", "accepted-rterr:neg"} {
+		if m.Outcomes[o] == 0 {
+			v = append(v, "vacuous: outcome class never observed: "+o)
+		}
+	}
+	if n := m.Outcomes["rejected:syntax"] + m.Outcomes["rejected:lexical"]; n > 0 {
+		v = append(v, fmt.Sprintf("generator bug: %d generated expressions are not well-formed", n))
+	}
+	return v
+}
+
+// enumC01 enumerates the expression programs of C01 (also used by C10, C14, C19).
+func enumC01(c *fw.Ctx, do func(src, shard string) bool) {
+	{
+		{
 			// (a) cell table in contexts, with variables and fields of every dynamic type
 			pre := `var vi = 7; var vf = 2.5; var vs = "a"; var vb = true; var vn; `
 			operands := append(append([]string{}, gen.AtomsT...), "vi", "vf", "vs", "vb", "vn")
@@ -210,18 +232,6 @@ func init() {
 				do("var x = 0; print "+strings.Repeat("(x = ", n)+"x + 1"+strings.Repeat(")", n)+"; print x", "")
 			}
 			c.Bound("nesting_completed", 64)
-		},
-		Finish: func(m *fw.Merged) []string {
-			var v []string
-			for _, o := range []string{"accepted-ok", "accepted-rterr:types", "accepted-rterr:divzero", "accepted-rterr:neg"} {
-				if m.Outcomes[o] == 0 {
-					v = append(v, "vacuous: outcome class never observed: "+o)
-				}
-			}
-			if n := m.Outcomes["rejected:syntax"] + m.Outcomes["rejected:lexical"]; n > 0 {
-				v = append(v, fmt.Sprintf("generator bug: %d generated expressions are not well-formed", n))
-			}
-			return v
-		},
-	})
+		}
+	}
 }
